@@ -43,6 +43,97 @@ func rCert(t *testing.T, keyID string, before uint64) (ed25519.PrivateKey, *ssh.
 	return priv, c
 }
 
+func rCertFor(t *testing.T, priv ed25519.PrivateKey) (ed25519.PrivateKey, *ssh.Certificate) {
+	spub, _ := ssh.NewPublicKey(priv.Public())
+	sg, _ := ssh.NewSignerFromKey(priv)
+	c := &ssh.Certificate{Key: spub, KeyId: "fresh", CertType: ssh.UserCert, ValidAfter: 0, ValidBefore: ssh.CertTimeInfinity, Nonce: []byte(time.Now().String())}
+	if err := c.SignCert(rand.Reader, sg); err != nil {
+		t.Fatal(err)
+	}
+	return priv, c
+}
+
+// gateConn suspends reads (the replies of the underlying agent) while closed.
+type gateConn struct {
+	net.Conn
+	mu      sync.Mutex
+	closed  bool
+	blocked chan struct{}
+	open    chan struct{}
+}
+
+func (g *gateConn) Read(p []byte) (int, error) {
+	g.mu.Lock()
+	c := g.closed
+	g.mu.Unlock()
+	if c {
+		select {
+		case g.blocked <- struct{}{}:
+		default:
+		}
+		<-g.open
+	}
+	return g.Conn.Read(p)
+}
+
+// replayAtomicity: while operation op is suspended inside a call to the
+// underlying agent, the shim lock must be held.
+func replayAtomicity(t *testing.T, op string) {
+	c1, c2 := net.Pipe()
+	defer c1.Close()
+	defer c2.Close()
+	kr := agent.NewKeyring()
+	go agent.ServeAgent(kr, c2)
+	g := &gateConn{Conn: c1, blocked: make(chan struct{}, 1), open: make(chan struct{})}
+	s, err := newShimAgent(g, false)
+	if err != nil {
+		t.Fatal(err)
+	}
+	s.pubKeyComp = func(x, y ssh.PublicKey) bool { return string(x.Marshal()) < string(y.Marshal()) }
+	p3, hw := rCert(t, "hw", ssh.CertTimeInfinity)
+	kr.Add(agent.AddedKey{PrivateKey: p3})
+	s.AddHardCert(hw, "hw")
+	_, fresh := rCertFor(t, p3)
+	ops := map[string]func(){
+		"List": func() { s.List() }, "Signers": func() { s.Signers() }, "Sign": func() { s.Sign(hw, []byte("d")) },
+		"Add": func() { _, p, _ := ed25519.GenerateKey(rand.Reader); s.Add(agent.AddedKey{PrivateKey: p}) },
+		"Remove": func() { s.Remove(hw) }, "RemoveAll": func() { s.RemoveAll() }, "AddHardCert": func() { s.AddHardCert(fresh, "fresh") },
+		"Lock": func() { s.Lock([]byte("p")) }, "Unlock": func() { s.Unlock([]byte("p")) },
+		"Extension": func() { s.Extension("ext@vsym", []byte("x")) }, "Forward": func() { s.Forward([]byte{11}) },
+	}
+	f := ops[op]
+	if f == nil {
+		fmt.Println("VSYM-REPLAY: NOT-REPRODUCED no atomicity replay for " + op)
+		return
+	}
+	g.mu.Lock()
+	g.closed = true
+	g.mu.Unlock()
+	done := make(chan struct{})
+	go func() { defer close(done); defer func() { recover() }(); f() }()
+	outcome := "NOT-REPRODUCED"
+	select {
+	case <-g.blocked:
+		if s.mu.TryLock() {
+			s.mu.Unlock()
+			outcome = "REPRODUCED " + op + " does not hold the shim lock while its call to the underlying agent is in flight"
+		}
+	case <-done:
+		outcome = "NOT-REPRODUCED operation made no upstream call"
+	case <-time.After(3 * time.Second):
+		outcome = "NOT-REPRODUCED timeout"
+	}
+	g.mu.Lock()
+	g.closed = false
+	g.mu.Unlock()
+	close(g.open)
+	select {
+	case <-done:
+	case <-time.After(3 * time.Second):
+	}
+	fmt.Println("VSYM-REPLAY:", outcome)
+}
+
 func TestVsymReplay(t *testing.T) {
 	var rp struct {
 		Facts map[string]string `json:"facts"`
@@ -50,6 +141,10 @@ func TestVsymReplay(t *testing.T) {
 	b, _ := os.ReadFile(os.Getenv("VSYM_REPLAY"))
 	json.Unmarshal(b, &rp)
 	opA, opB := rp.Facts["opA"], rp.Facts["opB"]
+	if rp.Facts["kind"] == "atomicity" {
+		replayAtomicity(t, opA)
+		return
+	}
 
 	for round := 0; round < 20; round++ {
 		c1, c2 := net.Pipe()
@@ -87,7 +182,7 @@ func TestVsymReplay(t *testing.T) {
 			case "RemoveAll":
 				return func() { s.RemoveAll() }
 			case "AddHardCert":
-				return func() { s.AddHardCert(hw, "again") }
+				return func() { _, fresh := rCertFor(t, p3); s.AddHardCert(fresh, "fresh") }
 			case "Lock":
 				return func() { s.Lock([]byte("p")) }
 			case "Unlock":
